@@ -333,12 +333,26 @@ impl Sut {
     fn dec_loop(&mut self) -> (bool, Vec<String>) {
         let mut out: Vec<String> = vec![];
         let mut stop = false;
+        let mut idle_rounds = 0usize;
         loop {
+            let before = self.cbuf.len();
             let r = {
                 let codec = &mut self.codec;
                 let buf = &mut self.cbuf;
                 catch_unwind(AssertUnwindSafe(|| codec.decode(buf)))
             };
+            // a decoder that keeps producing requests without consuming a byte never gets back to the socket
+            if self.cbuf.len() == before && matches!(r, Ok(Ok(Some(_)))) {
+                idle_rounds += 1;
+                if idle_rounds > 64 {
+                    out.truncate(out.len().saturating_sub(60));
+                    out.push("P:decode_loop_emits_requests_without_consuming_input".to_string());
+                    stop = true;
+                    break;
+                }
+            } else {
+                idle_rounds = 0;
+            }
             match r {
                 Err(e) => {
                     out.push(format!("P:{}", panic_text(e).replace(' ', "_")));
